@@ -168,9 +168,14 @@ impl Wallet {
 
     /// [private_key - 32 bytes]
     /// [public_key - 33 bytes]
-    pub fn deserialize_from_disk(&mut self, bytes: &[u8]) {
+    pub fn deserialize_from_disk(&mut self, bytes: &[u8]) -> Result<(), Error> {
+        if bytes.len() < 65 {
+            warn!("wallet buffer is too short : {:?}", bytes.len());
+            return Err(Error::from(ErrorKind::InvalidData));
+        }
         self.private_key = bytes[0..32].try_into().unwrap();
         self.public_key = bytes[32..65].try_into().unwrap();
+        Ok(())
     }
 
     pub fn on_chain_reorganization(
